@@ -61,7 +61,7 @@ def expected(srcval, inp):
     """exact rational expectation of the input (flat list of Fractions)"""
     vals = through_chain(srcval, inp['chain']).ravel()
     fac, off = conversion(inp['src_units'], inp['units'])
-    return [(F(float(v)) + off) * fac for v in vals], (fac != 1 or off != 0)
+    return [(F(float(v)) + off) * fac for v in vals], (fac != 1 or off != 0 or bool(inp.get('src_scaled')))
 
 
 def close(got, exp, inexact):
@@ -90,10 +90,13 @@ class Src(om.ExplicitComponent):
     def setup(self):
         s = self.options['spec']
         kw = {}
-        if s['ref'] is not None:
-            kw['ref'] = float(F(*s['ref']))
-        if s['ref0'] is not None:
-            kw['ref0'] = float(F(*s['ref0']))
+        for key in ('ref', 'ref0', 'res_ref'):
+            spec = s.get(key)
+            if spec is not None:
+                if 's' in spec:
+                    kw[key] = float(F(*spec['s']))
+                else:
+                    kw[key] = np.array([float(F(*v)) for v in spec['a']]).reshape(s['shape'])
         self.add_input('fb', val=0.0)
         self.base = np.array(s['base'], dtype=float).reshape(s['shape'])
         self.gain = np.array(s['gain'], dtype=float).reshape(s['shape'])
@@ -177,6 +180,7 @@ def build(case):
                 inp['src_shape'] = autos[inp['src']]['shape']
             else:
                 inp['src_abs'] = inp['src'] + '.y'
+                inp['src_scaled'] = srcs[inp['src']].get('ref') is not None or srcs[inp['src']].get('ref0') is not None
                 inp['src_units'] = srcs[inp['src']]['units']
                 inp['src_shape'] = srcs[inp['src']]['shape']
             inputs.append(inp)
@@ -319,14 +323,15 @@ def handle(case):
                 CHECKS.append('get_src_index_array(%s) has shape %s' % (a, np.shape(sia)))
         # input scaling of the root nonlinear input vector
         sc = getattr(invec, '_scaling', None)
-        s0, s1 = 0.0, 1.0
+        start, end = invec._views[a].range
+        s0 = [0.0] * (end - start)
+        s1 = [1.0] * (end - start)
         if sc is not None:
-            start, end = invec._views[a].range
             if sc[0] is not None:
-                s1 = float(np.asarray(sc[0])[start])
+                s1 = [float(x) for x in np.asarray(sc[0])[start:end]]
             if sc[1] is not None:
-                s0 = float(np.asarray(sc[1])[start])
-        res.append([pos, [q(x) for x in v1.ravel()], [q(x) for x in v1.ravel()], [q(s0), q(s1)]])
+                s0 = [float(x) for x in np.asarray(sc[1])[start:end]]
+        res.append([pos, [q(x) for x in v1.ravel()], [q(x) for x in v1.ravel()], [[q(x) for x in s0], [q(x) for x in s1]]])
         srcvals.append([q(x) for x in np.asarray(srcval).ravel()])
     ok = not CHECKS
     return {'res': res, 'src': srcvals, 'ok': ok, 'msg': '; '.join(CHECKS), 'kind': kind,
